@@ -720,6 +720,16 @@ pub fn run_scenario(scn: &Value, workdir: &str, tr: &mut Trace) {
     };
     tr.emit(json!({"ev":"scenario","id":id,"scn":scn,"report":t.report}));
     tr.flush();
+    // threads that another tracer (this process) already holds: the dumper's attach fails with EPERM for them
+    let mut pretraced = Vec::new();
+    for sl in scn.get("pretrace_slots").and_then(|v| v.as_array()).cloned().unwrap_or_default() {
+        let tid = t.report["threads"][sl.as_u64().unwrap_or(0) as usize]["tid"].as_i64().unwrap_or(0) as i32;
+        unsafe {
+            if libc::ptrace(libc::PTRACE_SEIZE, tid, 0, 0) == 0 {
+                pretraced.push(tid);
+            }
+        }
+    }
     let before = if scn.get("observe").and_then(|v| v.as_bool()).unwrap_or(false) { Some(observe_target(&t, 50)) } else { None };
     let out_path = format!("{workdir}/worker_{}.ndjson", std::process::id());
     let _ = std::fs::remove_file(&out_path);
@@ -758,7 +768,10 @@ pub fn run_scenario(scn: &Value, workdir: &str, tr: &mut Trace) {
         }
     }
     let _ = std::fs::remove_file(&out_path);
-    let mut end = json!({"ev":"end","id":id,"worker":outcome,"wall_s":t0.elapsed().as_secs_f64()});
+    for tid in &pretraced {
+        unsafe { libc::ptrace(libc::PTRACE_DETACH, *tid, 0, 0) };
+    }
+    let mut end = json!({"ev":"end","id":id,"worker":outcome,"wall_s":t0.elapsed().as_secs_f64(),"pretraced":pretraced});
     if scn.get("observe").and_then(|v| v.as_bool()).unwrap_or(false) {
         end["before"] = before.unwrap_or(Value::Null);
         end["after"] = observe_target(&t, 300);
